@@ -26,6 +26,11 @@ enum Interrupt {
     BeforeBatchLoad(usize),
     BeforeJoinLoad(usize),
     AfterPrinted(usize),
+    /// the flag is already cleared when the executor is created and started
+    BeforeStart,
+    /// the flag is cleared while a line is being combined with its joined rows: after the j-th combination (counted
+    /// over the whole run)
+    AfterJoinRow(usize),
 }
 
 #[derive(Default, Clone, Debug)]
@@ -34,6 +39,9 @@ struct Counts {
     join: usize,
     join_after_interrupt: usize,
     fired: bool,
+    joinrow: usize,
+    /// number of input lines loaded when the interrupt fired
+    fired_at_batch: usize,
 }
 
 thread_local! {
@@ -56,6 +64,14 @@ fn run_with(tables: &Tables, stmt_text: &str, files: &[&[u8]], intr: &Interrupt)
                 }
                 c.batch += 1;
             }
+            Point::JoinRow => {
+                if i2 == Interrupt::AfterJoinRow(c.joinrow) {
+                    r2.store(false, Ordering::SeqCst);
+                    c.fired = true;
+                    c.fired_at_batch = c.batch;
+                }
+                c.joinrow += 1;
+            }
             Point::JoinLoadLine => {
                 if i2 == Interrupt::BeforeJoinLoad(c.join) {
                     r2.store(false, Ordering::SeqCst);
@@ -70,6 +86,9 @@ fn run_with(tables: &Tables, stmt_text: &str, files: &[&[u8]], intr: &Interrupt)
         }
         Action::Continue
     }));
+    if *intr == Interrupt::BeforeStart {
+        running.store(false, Ordering::SeqCst);
+    }
     let opts = FileRunOpts { single_result: SINGLE_RESULT.with(|s| s.get()), running: running.clone(), interrupt_after_printed: if let Interrupt::AfterPrinted(n) = intr { Some(*n) } else { None }, ..Default::default() };
     let out = sut::run_files(tables, &st, files, opts);
     verif_hooks::clear();
@@ -187,6 +206,10 @@ fn check_group(w: &World, si: usize, seq: &[u8], parts: &[usize], only: Option<&
     for n in 1..=base.printed.len() {
         points.push(Interrupt::AfterPrinted(n));
     }
+    points.push(Interrupt::BeforeStart);
+    for j in 0..bc.joinrow {
+        points.push(Interrupt::AfterJoinRow(j));
+    }
     if let Some(o) = only {
         points = vec![o.clone()];
     }
@@ -202,6 +225,8 @@ fn check_group(w: &World, si: usize, seq: &[u8], parts: &[usize], only: Option<&
             Interrupt::BeforeBatchLoad(_) => "before-line-load",
             Interrupt::BeforeJoinLoad(_) => "before-join-load",
             Interrupt::AfterPrinted(_) => "after-printed-record",
+            Interrupt::BeforeStart => "before-start",
+            Interrupt::AfterJoinRow(_) => "between-joined-rows-of-a-line",
             Interrupt::None => "none",
         };
         let mut devs: Vec<(String, String)> = Vec::new();
@@ -216,8 +241,9 @@ fn check_group(w: &World, si: usize, seq: &[u8], parts: &[usize], only: Option<&
                 // consumption bound
                 let allowed: u64 = match p {
                     Interrupt::BeforeBatchLoad(k) => *k as u64,
-                    Interrupt::BeforeJoinLoad(_) => 0,
+                    Interrupt::BeforeJoinLoad(_) | Interrupt::BeforeStart => 0,
                     Interrupt::AfterPrinted(_) => u64::MAX, // refined below for non-aggregates
+                    Interrupt::AfterJoinRow(_) => c.fired_at_batch as u64, // the line in progress is the last one
                     Interrupt::None => u64::MAX,
                 };
                 let mut allowed = allowed;
@@ -259,7 +285,7 @@ fn check_group(w: &World, si: usize, seq: &[u8], parts: &[usize], only: Option<&
                         let consumed = fr.total_lines as usize;
                         let prefix_files = files_from_bytes(&blines[..consumed.min(lines.len())], &[consumed.min(lines.len())]);
                         let prefs: Vec<&[u8]> = prefix_files.iter().map(|f| f.as_slice()).collect();
-                        let expect = if let Interrupt::BeforeJoinLoad(_) = p {
+                        let expect = if matches!(p, Interrupt::BeforeJoinLoad(_)) || (*p == Interrupt::BeforeStart && text.contains("JOIN")) {
                             None // joined table incomplete and no line consumed: nothing may be printed
                         } else {
                             match run_with(&w.tables, text, &prefs, &Interrupt::None).0 {
@@ -275,6 +301,9 @@ fn check_group(w: &World, si: usize, seq: &[u8], parts: &[usize], only: Option<&
                 } else {
                     if got.len() > full.len() || got[..] != full[..got.len()] {
                         devs.push(("output-not-prefix".into(), format!("printed {:?} is not a prefix of {:?}", got, full)));
+                    }
+                    if *p == Interrupt::BeforeStart && !got.is_empty() {
+                        devs.push(("output-although-interrupted-before-start".into(), format!("printed {:?}", got)));
                     }
                     if let Interrupt::BeforeBatchLoad(k) = p {
                         // everything produced by the first k lines must have been printed
